@@ -400,17 +400,22 @@ impl<'a> Sem<'a> {
         let mut mentioned: BTreeSet<Class> = BTreeSet::new();
         for (m, sign) in tx.mints.iter().map(|m| (m, 1)).chain(tx.burns.iter().map(|b| (b, -1))) {
             let block = self.assets_of(&m.amount)?;
+            // a block that is a single asset atom with quantity zero is a "zero mint" (must be an
+            // error); quantities that cancel inside a block or across blocks may also simply be
+            // omitted from the mint field
+            let mut atom = &m.amount;
+            while let E::Paren(x) | E::Local(_, x) = atom {
+                atom = x;
+            }
+            if matches!(atom, E::AssetCall(..) | E::AnyAsset(..)) && block.is_empty() {
+                out.zero_mint = true;
+            }
             for c in self.classes_mentioned(&m.amount)? {
-                if !block.contains_key(&c) {
-                    out.zero_mint = true;
-                }
                 mentioned.insert(c);
             }
             mint = assets_add(&mint, &if sign == 1 { block } else { assets_neg(&block) });
         }
-        if mentioned.iter().any(|c| !mint.contains_key(c)) {
-            out.zero_mint = true;
-        }
+        let _ = mentioned;
         for (k, v) in mint {
             match k {
                 Some(k) => {
@@ -588,12 +593,16 @@ pub fn out_of_range(t: &ExpTx) -> Vec<String> {
     let two63 = BigInt::from(1u8) << 63;
     let in_u64 = |x: &BigInt| !x.is_negative() && *x < two64;
     for (i, o) in t.outputs.iter().enumerate() {
-        if !in_u64(&o.lovelace) {
-            bad.push(format!("output[{i}].lovelace"));
+        if o.lovelace.is_negative() {
+            bad.push(format!("output[{i}].lovelace-negative"));
+        } else if !in_u64(&o.lovelace) {
+            bad.push(format!("output[{i}].lovelace-overflow"));
         }
         for v in o.assets.values() {
-            if v.is_negative() || !in_u64(v) {
-                bad.push(format!("output[{i}].asset"));
+            if v.is_negative() {
+                bad.push(format!("output[{i}].asset-negative"));
+            } else if !in_u64(v) {
+                bad.push(format!("output[{i}].asset-overflow"));
             }
         }
     }
